@@ -6,7 +6,7 @@ package service
 // End block (C13): whatever the two batch queues and the request tables contain, handling the entries due at this
 // height cannot abort. The queue iterations are taken as yielding arbitrary entries (their prefixes are sub-slices of
 // request ids, outside the key model), which is the stronger statement for "never halts".
-//@ func EndBlocker
+//@ func EndBlocker(ctx, k)
 //@   property C07, C08, C13
 //@   requires height >= 0 && keeper.endBlockInv && keeper.queueVals
 //@   requires k.feeCollectorName != "service_request_account" && k.feeCollectorName != "service_deposit_account"
